@@ -108,6 +108,38 @@ def linted (recursive : Bool) (rel : Path) (pats : List (List Char)) (t : Nodes)
 def lintedExplicit (rel : Path) (pats : List (List Char)) (p : Path) : Bool :=
   !hardExcluded rel p && !isIgnored pats (rel ++ p)
 
+/-! ## Several targets in one run (`execute_linting_on_paths` / `_merge_targets`) -/
+
+def findDir (d : Name) : Nodes → Option Nodes
+  | .nil => none
+  | .cons (.dir n k) t => if n == d then some k else findDir d t
+  | .cons (.file _) t => findDir d t
+
+/-- the tree below a directory path of the project -/
+def subtreeAt : Path → Nodes → Option Nodes
+  | [], t => some t
+  | d :: r, t => match findDir d t with
+    | some k => subtreeAt r k
+    | none => none
+
+/-- a command-line target (paths below the project root, which is the root of the tree) -/
+inductive Target where
+  | dir (p : Path)
+  | file (p : Path)
+  deriving Repr
+
+/-- what one target contributes: a directory its (recursive or direct-children) walk through the gates, an
+    explicitly named file itself if it passes the gates -/
+def lintedOne (recursive : Bool) (pats : List (List Char)) (t : Nodes) : Target → List Path
+  | .dir d => match subtreeAt d t with
+    | some s => (linted recursive d pats s).map (d ++ ·)
+    | none => []
+  | .file p => if lintedExplicit [] pats p then [p] else []
+
+/-- several targets are one run: the union of what each contributes, every file once -/
+def lintedTargets (recursive : Bool) (pats : List (List Char)) (t : Nodes) (ts : List Target) : List Path :=
+  (ts.flatMap (lintedOne recursive pats t)).eraseDups
+
 /-! ## Specification -/
 
 mutual
